@@ -48,6 +48,7 @@ func runOnce(sc *Scenario) {
 	e := &env{sc: sc, bars: make([]*mpb.Bar, len(sc.Bars)), f: newFaults(sc.Faults), stopCh: make(chan struct{})}
 	ctx, cancel := context.WithCancel(context.Background())
 	e.cancel = cancel
+	initSharedStyles(sc)
 	c := &sc.Cont
 	rec := &recorder{f: e.f, spec: c, w: c.TermW, h: c.TermH}
 	var opts []mpb.ContainerOption
@@ -206,6 +207,12 @@ func (e *env) barOptions(i int) (mpb.BarFiller, []mpb.BarOption) {
 			return &probeFiller{bar: i, base: base, f: e.f}
 		}))
 	}
+	if bs.FillOnComplete {
+		opts = append(opts, mpb.BarFillerOnComplete(FillMsg(i, 0)))
+	}
+	if bs.FillOnAbort {
+		opts = append(opts, mpb.BarFillerOnAbort(FillMsg(i, 1)))
+	}
 	var pre, app []decor.Decorator
 	if !bs.NoSpy {
 		pre = append(pre, newSpy(i))
@@ -236,7 +243,7 @@ func (e *env) barOptions(i int) (mpb.BarFiller, []mpb.BarOption) {
 		opts = append(opts, mpb.BarWidth(bs.Width))
 	}
 	if bs.ExtRows > 0 {
-		opts = append(opts, mpb.BarExtender(&probeExtender{bar: i, rows: bs.ExtRows, f: e.f}, bs.ExtRev))
+		opts = append(opts, mpb.BarExtender(&probeExtender{bar: i, rows: bs.ExtRows, f: e.f, noNL: bs.ExtNoNL}, bs.ExtRev))
 	}
 	if bs.QueueAfter >= 0 && e.bars[bs.QueueAfter] != nil {
 		opts = append(opts, mpb.BarQueueAfter(e.bars[bs.QueueAfter]))
